@@ -17,6 +17,10 @@ Inductive case :=
                                            time - 1ns is the time of the q-th record read", 0 = no event yet *)
      (aborted : bool)                   (* the reader reported a terminal error: the loop gives up, the run is not failure-free;
                                            only the safety half is checked (nothing wrong delivered, order, cuts) *)
+     (failed : bool)                    (* the runner stopped by itself before the harness tore it down: an error was surfaced (e.g. a failed
+                                           KeyEventBatch call went to the error channel). Not a failure-free run: nothing is promised beyond
+                                           "nothing that was never produced, nothing twice, nothing at a wrong operator". A key-by call that
+                                           fails WITHOUT the run failing leaves failed = false, so missing records fire code 10. *)
      (bad : bool).                      (* overlapping calls to one operator, or the run exceeded the guard time *)
 
 Fixpoint list_eqb {A} (eqb : A -> A -> bool) (a b : list A) : bool :=
@@ -137,7 +141,10 @@ Section Case.
   Definition wm_values_ok : bool :=
     forallb (fun i => prefixN (nth i wms []) (wm_expected 0 0 input)) (seq 0 n_ops).
 
-  Definition check (aborted bad : bool) : list N :=
+  Definition check (aborted failed bad : bool) : list N :=
+    if failed then
+      (if no_dup_no_foreign then [] else [10]) ++ (if routed_ok then [] else [11])
+    else
     (if Nat.eqb (length obs) n_ops then [] else [3]) ++
     (if batch_sizes_ok then [] else [2]) ++
     (if no_dup_no_foreign then [] else [10]) ++
@@ -155,7 +162,7 @@ End Case.
 
 Definition nodup (l : list N) : list N := fold_right (fun c acc => if existsb (N.eqb c) acc then acc else c :: acc) [] l.
 Definition check_case (c : case) : list N :=
-  match c with RC nops kgc mx delay input obs wms aborted bad => nodup (check nops kgc mx delay input obs wms aborted bad) end.
+  match c with RC nops kgc mx delay input obs wms aborted failed bad => nodup (check nops kgc mx delay input obs wms aborted failed bad) end.
 
 Definition run (cases : list (N * case)) : list (N * N) :=
   flat_map (fun ic => map (fun code => (fst ic, code)) (check_case (snd ic))) cases.
